@@ -15,6 +15,8 @@ registered under.
 Environment facts the model cannot compute are parameters (`Env`): `str.upper`/`str.lower` of
 non-ASCII text and the order in which CPython iterates a frozenset.  Times are integers (milliseconds).
 
+The interpreter's recursion limit enters as two more `Env` facts (`loadOverflows`, `dumpOverflows`).
+
 Not modelled (the driver reports such a case as `not-modelled` and the harness skips it): a NaN inside
 a port (NaN keys are equal by object identity only), `TAG_SLICE` applied to a frozenset (from brine).
 -/
@@ -26,6 +28,11 @@ structure Env where
   upper : List Nat → List Nat
   lower : List Nat → List Nat
   fsetIter : List Val → List Val
+  /-- does `brine.load(data)` hit the interpreter's recursion limit (at the stack depth `_work` runs at) -/
+  loadOverflows : Bytes → Bool := fun _ => false
+  /-- does `brine.dump(reply)` hit it: a reply nests a stored port as deep as the request that registered it did,
+  and dumping the innermost value can take a frame more than loading it took -/
+  dumpOverflows : Val → Bool := fun _ => false
 
 /-! ### text -/
 
@@ -387,20 +394,27 @@ def idle (sv : Services) : Step := ⟨sv, [], none, true⟩
 Python 3.13 on) -/
 def warnStep (sv : Services) : Step := ⟨sv, [], none, Gen.realLoggerSurvivesWarn⟩
 
-/-- `except Exception: log` / `else: self._send(brine.dump(reply), addrinfo)` — the `dump` is outside the
-guarded region: if it raised, the exception would leave `_work` -/
-def finish (r : CmdRes) : Step :=
+/-- `except Exception: log` / `else: self._send(brine.dump(reply), addrinfo)`.  `brine.dump(reply)` can raise:
+`RecursionError` for a deeply nested stored port (`env.dumpOverflows`), in principle an encoding error.  `guarded`
+says whether that statement sits inside a `try` of its own (then: log, no reply, the loop goes on) or bare in the
+`else:` clause (then the exception leaves `_work`). -/
+def finishG (guarded : Bool) (env : Env) (r : CmdRes) : Step :=
   match r.out with
   | .error _ => ⟨r.sv, r.notes, none, true⟩
-  | .ok reply => match dump reply with
-    | .ok _ => ⟨r.sv, r.notes, some reply, true⟩
-    | .error _ => ⟨r.sv, r.notes, none, false⟩
+  | .ok reply =>
+    if env.dumpOverflows reply then ⟨r.sv, r.notes, none, guarded⟩
+    else match dump reply with
+      | .ok _ => ⟨r.sv, r.notes, some reply, true⟩
+      | .error _ => ⟨r.sv, r.notes, none, guarded⟩
+
+/-- as the code under test does it (`Gen.replyDumpGuarded`, observed on the live `_work`) -/
+def finish (env : Env) (r : CmdRes) : Step := finishG Gen.replyDumpGuarded env r
 
 /-- `reply = cmdfunc(addrinfo[0], *args)` inside `try` -/
 def execute (env : Env) (pruning : Int) (sv : Services) (host : Val) (now : Int) (c : CmdName × Nat) (args : Val) : Step :=
   match iterate' env args with
   | .error _ => idle sv
-  | .ok xs => if xs.length = c.2 then finish (callCmd env pruning sv host now c.1 xs) else idle sv
+  | .ok xs => if xs.length = c.2 then finish env (callCmd env pruning sv host now c.1 xs) else idle sv
 
 def dispatch3 (env : Env) (pruning : Int) (sv : Services) (host : Val) (now : Int) (m : Val × Val × Val) : Step :=
   if isMagic m.1 then
@@ -416,9 +430,10 @@ def dispatch (env : Env) (pruning : Int) (sv : Services) (host : Val) (now : Int
 
 /-- one iteration of `_work` on the datagram `_recv` returned, from `host`, at time `now` -/
 def workStep (env : Env) (pruning : Int) (sv : Services) (host : Val) (dgram : Bytes) (now : Int) : Step :=
-  match load dgram with
-  | .error _ => idle sv
-  | .ok v => dispatch env pruning sv host now v
+  if env.loadOverflows dgram then idle sv      -- `RecursionError` inside the first `try`
+  else match load dgram with
+    | .error _ => idle sv
+    | .ok v => dispatch env pruning sv host now v
 
 /-- `UDPRegistryServer._recv`: `recvfrom(MAX_DGRAM_SIZE)` hands over at most that many bytes -/
 def udpRecv (d : Bytes) : Bytes := d.take Gen.maxDgramSize
